@@ -31,6 +31,11 @@ CHECKS = {
          "Every opcode and operand form over a 20-value alphabet (squared for binary ops) with six different seed gradients per operand, in slices of every length 1..=9, and every DAG up to the node bound over 20 differentiable ops with all nodes exported, are evaluated by the VM and JIT gradient evaluators; each node's gradient must equal the f64 dual-number rule applied to the evaluator's own operand gradients (cancellation-aware tolerance), its value must equal the float-slice evaluator's, the symbolic derivative from Context::deriv must evaluate to the evaluator's partials, and the Shape transform path (7 matrices incl. projective) is checked against f64 duals.",
          "Trusted: dual64 rules and the 1e-3 locus-exclusion rule (skips are counted); rand/mix taken as locally constant; x86_64 JIT only.",
          "DESIGN.md §4 C05"),
+ "C06": ("model_checking",
+         "exhaustive Cartesian product of shapes x image sizes x tile-size chains x transforms x modes x backends on the real 2D renderer, vs. per-pixel f64 evaluation",
+         "Every combination of 13 shapes, all image sizes of a grid that includes non-multiples of every tile size and non-square images, tile-size chains (thorough: all 15 valid chains over {16,8,4,2}), 5 view transforms, slice heights, pixel-perfect on/off, thread pool / none and VM / JIT is rendered by the real renderer; every pixel is compared with the f64 value of the shape at its sample position (sign for decidable pixels, value in pixel-perfect mode); image dimensions must equal the request.",
+         "Trusted: f64 evaluation of the same program and the decidability margin 2e-5*(1+magnitude); the pool dimension uses the rayon stand-in's default schedule (schedules are C09's).",
+         "DESIGN.md §4 C06"),
  "C10": ("model_checking",
          "exhaustive enumeration of use histories over real long-lived evaluators / storage pools / workspace, differential oracle against fresh objects",
          "Every sequence of up to 2-3 (quick) / 3-4 (thorough) uses from a 70-use alphabet (4 evaluator kinds x 7 differently shaped functions x 2 inputs with different sample counts, plus simplify-evaluate-recycle) is run through one evaluator per kind, one stack of recycled tape storage (JIT mappings larger and smaller than the next code), one stack of recycled function storage and one workspace, on VM<255>, VM<3> and JIT; every step's outputs, trace and simplified tape must equal bit-for-bit the same call on fresh objects; all RenderHandle simplify/recycle sequences over three traces (cache hit and miss) up to depth 3/4.",
